@@ -45,6 +45,20 @@ var hostileValues = []struct {
 	{"delete", ``},
 }
 
+// ConfigKeys: the option keys of the configuration-update language (data/governance), and two it does not know.
+var ConfigKeys = []string{
+	"evidenceOptions.blockVotesDiff", "evidenceOptions.minVotesRequired", "evidenceOptions.penaltyBasePercentage", "evidenceOptions.penaltyPercentage",
+	"feeOption.minFeeDecimal", "onsOptions.baseDomainPrice", "onsOptions.perBlockFees",
+	"propOptions.codeChange.failedFundDistribution", "propOptions.codeChange.fundingDeadline", "propOptions.codeChange.fundingGoal",
+	"propOptions.codeChange.initialFunding", "propOptions.codeChange.passPercentage", "propOptions.codeChange.passedFundDistribution",
+	"propOptions.codeChange.votingDeadline", "propOptions.configUpdate.failedFundDistribution", "propOptions.configUpdate.fundingDeadline",
+	"propOptions.configUpdate.fundingGoal", "propOptions.configUpdate.initialFunding", "propOptions.configUpdate.passPercentage",
+	"propOptions.configUpdate.passedFundDistribution", "propOptions.configUpdate.votingDeadline", "propOptions.general.failedFundDistribution",
+	"propOptions.general.fundingDeadline", "propOptions.general.fundingGoal", "propOptions.general.initialFunding", "propOptions.general.passPercentage",
+	"propOptions.general.passedFundDistribution", "propOptions.general.votingDeadline", "stakingOptions.maturityTime",
+	"stakingOptions.minSelfDelegationAmount", "stakingOptions.topValidatorCount", "rewardOptions.rewardInterval", "networkDelegOptions.rewardsMaturityTime",
+}
+
 func sortedRawKeys(m map[string]json.RawMessage) []string {
 	ks := []string{}
 	for k := range m {
@@ -133,6 +147,21 @@ func (g *Genesis) HostileCases(bt *Built) []HostileCase {
 					m[k] = marshalSorted(sm)
 					add(k+"."+sk, hv.class, marshalSorted(m))
 				}
+			}
+		}
+	}
+	// configuration proposals: every option key the update language knows, with boundary values (the validation of a
+	// proposed value runs in CheckTx and DeliverTx of the create request)
+	if _, ok := payload["configUpdate"]; ok {
+		for _, key := range ConfigKeys {
+			for _, val := range []string{"0", "-1", "1", "100", "99999999999999999999", "x", ""} {
+				m := map[string]json.RawMessage{}
+				for kk, vv := range payload {
+					m[kk] = vv
+				}
+				m["proposalType"] = json.RawMessage("32") // governance.ProposalTypeConfigUpdate
+				m["configUpdate"] = json.RawMessage(fmt.Sprintf("%q", key+":"+val))
+				add("configUpdate", key+":"+val, marshalSorted(m))
 			}
 		}
 	}
